@@ -47,6 +47,12 @@ CHECKS = {
         text="Bounded model checking / bounded-exhaustive exploration: every depth-2 combination of 47 expression forms x operand position and depth-3 operator chains (6 of 25 grandparent operators quick, all thorough) re-parse to the source AST (modulo documented spelling changes); every str/bytes of <=3 (4) characters over a quoting-relevant alphabet reads back via literal_eval; _str_escape is confirmed on symbolic strings of <=2 (3) arbitrary non-surrogate characters; _output conserves text and respects linelen for all small (linelen, column, length); cut output is marked and is a prefix of the full rendering for 5040 (12 600) limit settings.",
         note="Trusted: CrossHair exhaustion verdict; CPython's parser/literal_eval as reader. Two recorded findings (one-element tuple, tuple slice bound) are excused by key and replayed each run.",
     ),
+    "C20": dict(
+        level="model_checking", design="DESIGN.md §3 C20 (narrow)", engine="rx+xh",
+        technique="z3 regex-theory inclusion between the quoting-detection regexes of the live _configparser and the grammar of Python string literals (strings of every length); CrossHair-exhausted quoting round trips, section names and unknown-key subsets",
+        text="Narrow claim: the quoting rules and the unknown-key filter only. K20a decides, for strings of every length, that every valid simple-quoted literal is detected, every valid triple-quoted literal is detected except two recorded classes (subtracted as languages after their witnesses replay), and nothing that is not lexically a simple-quoted literal is taken for quoted. K20b/c exhaust quoting round trips for texts of <=3 (4) characters over a 10-character alphabet in four styles, raw texts, TOML section names and all 256 known/unknown key subsets through ValidatorParser. Equivalence of every option across pyproject.toml / setup.cfg / pydoctor.ini / command line is NOT claimed (configargparse, toml, configparser and the file system are outside the engine's reach).",
+        note="Trusted: z3 sequence theory, CPython re._parser, lib/rx2z3.py (validated against re on 26 vectors each run), my z3 rendering of the literal grammar, CrossHair exhaustion verdict.",
+    ),
 }
 
 NOT_APPLICABLE = {
